@@ -56,57 +56,61 @@ def unquoteBytes : Bytes → Bytes
 /-- the text werkzeug's codec error handler substitutes for an undecodable span -/
 def requote (span : Bytes) : Str := quoteBytes Gen.UrlTables.codecErrorSafe span
 
-/-- `bytes.decode("utf-8", "werkzeug.url_quote")`: valid sequences decode, every maximal invalid
-subpart (CPython's error span) is replaced by its percent-quoted bytes. -/
-def decodeQ : Nat → Bytes → Str
+/-- for a lead byte: how many continuation bytes follow and the admissible range of the first one
+(the ranges that exclude overlong forms, surrogates and code points above U+10FFFF) -/
+def leadInfo (b0 : UInt8) : Option (Nat × UInt8 × UInt8) :=
+  if Py.inRange b0 0xC2 0xDF then some (1, 0x80, 0xBF)
+  else if Py.inRange b0 0xE0 0xEF then
+    some (2, if b0 == 0xE0 then 0xA0 else 0x80, if b0 == 0xED then 0x9F else 0xBF)
+  else if Py.inRange b0 0xF0 0xF4 then
+    some (3, if b0 == 0xF0 then 0x90 else 0x80, if b0 == 0xF4 then 0x8F else 0xBF)
+  else none
+
+/-- the longest prefix of `t`, at most `n` bytes, of admissible continuation bytes: the first in
+`[lo, hi]`, the others in `[0x80, 0xBF]` -/
+def takeCont : Nat → UInt8 → UInt8 → Bytes → Bytes
+  | 0, _, _, _ => []
+  | _ + 1, _, _, [] => []
+  | n + 1, lo, hi, b :: t => if Py.inRange b lo hi then b :: takeCont n 0x80 0xBF t else []
+
+def codePoint (b0 : UInt8) (cs : Bytes) : Nat :=
+  cs.foldl (fun acc b => acc * 64 + (b.toNat - 0x80))
+    (b0.toNat - (match cs.length with | 1 => 0xC0 | 2 => 0xE0 | _ => 0xF0))
+
+/-- what the UTF-8 decoder makes of the front of its input: a character (with the bytes it came
+from) or an undecodable span - CPython's error span, the maximal invalid subpart -/
+inductive Item where
+  | chr (c : Char) (raw : Bytes)
+  | bad (span : Bytes)
+
+def Item.raw : Item → Bytes
+  | .chr _ r => r
+  | .bad s => s
+
+def firstItem (b0 : UInt8) (t : Bytes) : Item :=
+  if b0 < 0x80 then .chr (Char.ofNat b0.toNat) [b0]
+  else
+    match leadInfo b0 with
+    | none => .bad [b0]
+    | some (n, lo, hi) =>
+      let cs := takeCont n lo hi t
+      if cs.length = n then .chr (Char.ofNat (codePoint b0 cs)) (b0 :: cs) else .bad (b0 :: cs)
+
+/-- the decoder's view of a byte string (fuel ≥ length) -/
+def items : Nat → Bytes → List Item
   | 0, _ => []
   | _, [] => []
   | fuel + 1, b0 :: t =>
-    let bad (span : Bytes) (rest : Bytes) := requote span ++ decodeQ fuel rest
-    if b0 < 0x80 then Char.ofNat b0.toNat :: decodeQ fuel t
-    else if Py.inRange b0 0xC2 0xDF then
-      match t with
-      | b1 :: t1 =>
-        if Py.inRange b1 0x80 0xBF then
-          Char.ofNat ((b0.toNat - 0xC0) * 64 + (b1.toNat - 0x80)) :: decodeQ fuel t1
-        else bad [b0] t
-      | [] => bad [b0] t
-    else if Py.inRange b0 0xE0 0xEF then
-      let lo : UInt8 := if b0 == 0xE0 then 0xA0 else 0x80
-      let hi : UInt8 := if b0 == 0xED then 0x9F else 0xBF
-      match t with
-      | b1 :: t1 =>
-        if Py.inRange b1 lo hi then
-          match t1 with
-          | b2 :: t2 =>
-            if Py.inRange b2 0x80 0xBF then
-              Char.ofNat ((b0.toNat - 0xE0) * 4096 + (b1.toNat - 0x80) * 64 + (b2.toNat - 0x80))
-                :: decodeQ fuel t2
-            else bad [b0, b1] t1
-          | [] => bad [b0, b1] t1
-        else bad [b0] t
-      | [] => bad [b0] t
-    else if Py.inRange b0 0xF0 0xF4 then
-      let lo : UInt8 := if b0 == 0xF0 then 0x90 else 0x80
-      let hi : UInt8 := if b0 == 0xF4 then 0x8F else 0xBF
-      match t with
-      | b1 :: t1 =>
-        if Py.inRange b1 lo hi then
-          match t1 with
-          | b2 :: t2 =>
-            if Py.inRange b2 0x80 0xBF then
-              match t2 with
-              | b3 :: t3 =>
-                if Py.inRange b3 0x80 0xBF then
-                  Char.ofNat ((b0.toNat - 0xF0) * 262144 + (b1.toNat - 0x80) * 4096 +
-                    (b2.toNat - 0x80) * 64 + (b3.toNat - 0x80)) :: decodeQ fuel t3
-                else bad [b0, b1, b2] t2
-              | [] => bad [b0, b1, b2] t2
-            else bad [b0, b1] t1
-          | [] => bad [b0, b1] t1
-        else bad [b0] t
-      | [] => bad [b0] t
-    else bad [b0] t
+    let it := firstItem b0 t
+    it :: items fuel (t.drop (it.raw.length - 1))
+
+def render : Item → Str
+  | .chr c _ => [c]
+  | .bad span => requote span
+
+/-- `bytes.decode("utf-8", "werkzeug.url_quote")`: valid sequences decode, every maximal invalid
+subpart (CPython's error span) is replaced by its percent-quoted bytes. -/
+def decodeQ (fuel : Nat) (bs : Bytes) : Str := (items fuel bs).flatMap render
 
 /-- one maximal ASCII run of `unquote`: percent-decode, then decode as UTF-8 with the handler -/
 def unquoteRun (run : Bytes) : Str :=
@@ -208,6 +212,35 @@ def encodingDance (s : Str) : Str := Py.latin1Dec (utf8Enc s)
 
 /-- `_wsgi_decoding_dance(s) = s.encode("latin1").decode(errors="replace")`; `none` = UnicodeEncodeError -/
 def decodingDance (s : Str) : Option Str := (Py.latin1Enc s).map Py.decodeReplace
+
+/-! ### EnvironBuilder → environ → Request.path -/
+
+/-- `bytes.decode("utf-8", "replace")`: one U+FFFD per undecodable span -/
+def renderR : Item → Str
+  | .chr c _ => [c]
+  | .bad _ => [Char.ofNat 0xFFFD]
+
+def unquoteRunR (run : Bytes) : Str :=
+  let bs := unquoteBytes run
+  (items (bs.length + 1) bs).flatMap renderR
+
+/-- `urllib.parse.unquote(s)` with its default `errors="replace"` -/
+def unquoteAuxR : Str → Bytes → Str
+  | [], acc => unquoteRunR acc.reverse
+  | c :: t, acc =>
+    if c.toNat < 128 then unquoteAuxR t (UInt8.ofNat c.toNat :: acc)
+    else unquoteRunR acc.reverse ++ c :: unquoteAuxR t []
+
+def unquoteReplace (s : Str) : Str := unquoteAuxR s []
+
+/-- `environ["PATH_INFO"]` as `EnvironBuilder.get_environ` computes it from the path part of its
+`path` argument: `_wsgi_encoding_dance(unquote(iri_to_uri(path)))` -/
+def environPathInfo (path : Str) : Str :=
+  encodingDance (unquoteReplace (quote Gen.UrlTables.iriPathSafe path))
+
+/-- `Request.path`: `"/" + _wsgi_decoding_dance(PATH_INFO).lstrip("/")` -/
+def requestPath (pathInfo : Str) : Option Str :=
+  (decodingDance pathInfo).map fun p => '/' :: p.dropWhile (· == '/')
 
 /-! ### DispatcherMiddleware -/
 
